@@ -6,12 +6,17 @@ package snap
 
 import (
 	"crypto/sha1"
+	"encoding/binary"
 	"encoding/hex"
 	"encoding/json"
 	"fmt"
 	"regexp"
 	"sort"
 	"strings"
+
+	pb "google.golang.org/protobuf/proto"
+
+	"github.com/janelia-flyem/dvid/datatype/common/proto"
 
 	"verifharness/internal/node"
 )
@@ -421,8 +426,8 @@ func typeReads(n *node.Node, typename, name, uuid string, opt Options) ([]Read, 
 		}
 		for _, b := range opt.Bodies[name] {
 			reads = append(reads, get(fmt.Sprintf("size/%d", b), NormJSON), get(fmt.Sprintf("supervoxels/%d", b), NormJSONSortedArray),
-				get(fmt.Sprintf("sparsevol/%d?format=rles", b), nil), get(fmt.Sprintf("sparsevol-coarse/%d", b), nil),
-				get(fmt.Sprintf("index/%d", b), nil), get(fmt.Sprintf("lastmod/%d", b), dropTimes))
+				get(fmt.Sprintf("sparsevol/%d?format=rles", b), normRLEs), get(fmt.Sprintf("sparsevol-coarse/%d", b), normRLEs),
+				get(fmt.Sprintf("index/%d", b), normLabelIndex), get(fmt.Sprintf("lastmod/%d", b), dropTimes))
 		}
 		for _, p := range opt.LabelPoints[name] {
 			reads = append(reads, get("label/"+p, NormJSON), get("label/"+p+"?supervoxels=true", NormJSON))
@@ -436,6 +441,40 @@ func typeReads(n *node.Node, typename, name, uuid string, opt Options) ([]Read, 
 		}
 	}
 	return reads, nil
+}
+
+// normRLEs sorts the runs of a legacy RLE sparse volume (their order carries no meaning).
+func normRLEs(b []byte) []byte {
+	if len(b) < 12 || (len(b)-12)%16 != 0 {
+		return b
+	}
+	n := (len(b) - 12) / 16
+	runs := make([]string, n)
+	for i := 0; i < n; i++ {
+		r := b[12+16*i : 12+16*(i+1)]
+		// sort key: z, y, x as signed
+		runs[i] = fmt.Sprintf("%011d %011d %011d %d", int64(int32(binary.LittleEndian.Uint32(r[8:])))+1<<31, int64(int32(binary.LittleEndian.Uint32(r[4:])))+1<<31,
+			int64(int32(binary.LittleEndian.Uint32(r[0:])))+1<<31, binary.LittleEndian.Uint32(r[12:]))
+	}
+	sort.Strings(runs)
+	return []byte(fmt.Sprintf("%x|%s", b[:12], strings.Join(runs, ";")))
+}
+
+// normLabelIndex renders a protobuf label index canonically (map order is not deterministic)
+// and drops its modification time.
+func normLabelIndex(b []byte) []byte {
+	var idx proto.LabelIndex
+	if err := pb.Unmarshal(b, &idx); err != nil {
+		return b
+	}
+	var ents []string
+	for zyx, svc := range idx.Blocks {
+		for sv, n := range svc.Counts {
+			ents = append(ents, fmt.Sprintf("%016x/%d=%d", zyx, sv, n))
+		}
+	}
+	sort.Strings(ents)
+	return []byte(fmt.Sprintf("label=%d mutid=%d user=%s app=%s %s", idx.Label, idx.LastMutid, idx.LastModUser, idx.LastModApp, strings.Join(ents, ",")))
 }
 
 // dropTimes removes time-valued fields of lastmod answers but keeps users/mutation ids.
